@@ -74,6 +74,10 @@ struct Req {
     chunks: Vec<Vec<u8>>,
     calls: usize,
     delay_us: u64,
+    /// `threads=1`: every call of the in-process case runs on a thread of its own (one after the other): what one
+    /// call read ahead must be there for the next one, whichever thread makes it (seed C17-d1: a per-thread buffer).
+    /// The model and the CLI streams ignore the field.
+    threads: bool,
 }
 
 fn parse(line: &str) -> Option<Req> {
@@ -85,15 +89,19 @@ fn parse(line: &str) -> Option<Req> {
     let chunks = chunks?;
     let calls: usize = w[2].strip_prefix("calls=")?.parse().ok()?;
     let mut delay_us = 0;
+    let mut threads = false;
     for x in &w[3..] {
         if let Some(d) = x.strip_prefix("delay=") {
             delay_us = d.parse().ok()?;
+        }
+        if *x == "threads=1" {
+            threads = true;
         }
     }
     if calls > MAX_CALLS || chunks.iter().any(|c| c.len() > MAX_CHUNK) {
         return None;
     }
-    Some(Req { chunks, calls, delay_us })
+    Some(Req { chunks, calls, delay_us, threads })
 }
 
 /// A chunk: `+`-joined parts, each plain hex (`-` = empty) or a run `HH*N` (N copies of the byte HH) —
@@ -328,7 +336,20 @@ fn one() -> i32 {
     let prompt = Value::Str(ArenaCow::Borrowed(""));
     let mut results = Vec::new();
     for _ in 0..req.calls {
-        let r = util::catch(|| GlobalBuiltin::read_line(&prompt, &arena).map(|s| s.as_bytes().to_vec()));
+        let r = if req.threads {
+            // a thread (and an arena) of its own for this call; joined before the next call starts
+            std::thread::spawn(|| {
+                util::catch(|| {
+                    let arena = Arena::new(64 << 20).expect("arena");
+                    let prompt = Value::Str(ArenaCow::Borrowed(""));
+                    GlobalBuiltin::read_line(&prompt, &arena).map(|s| s.as_bytes().to_vec())
+                })
+            })
+            .join()
+            .unwrap_or_else(|_| Err("thread".to_string()))
+        } else {
+            util::catch(|| GlobalBuiltin::read_line(&prompt, &arena).map(|s| s.as_bytes().to_vec()))
+        };
         results.push(match r {
             Ok(Ok(bytes)) => CallResult::Line(bytes),
             Ok(Err(e)) => CallResult::Bad(format!("err{}", e.raw_os_error().unwrap_or(0))),
@@ -812,7 +833,11 @@ fn generate(args: &[String]) -> i32 {
         }
         .min(10);
         let delay = if chunks.len() <= 8 && rng.chance(1, 10) { 300 } else { 0 };
-        out.line(&request_line(&chunks, calls, delay));
+        let mut line = request_line(&chunks, calls, delay);
+        if calls >= 2 && rng.chance(1, 6) {
+            line.push_str(" threads=1");
+        }
+        out.line(&line);
     }
     0
 }
